@@ -160,7 +160,7 @@ fn unrepresentable(log: &[(String, String, String)]) -> bool {
 
 /// a value's non-blank lines, trimmed
 pub fn norm_lines(v: &str) -> Vec<String> {
-    v.split('\n').map(|l| l.trim_matches([' ', '\t']).to_string()).filter(|l| !l.is_empty()).collect()
+    v.split(['\n', '\r']).map(|l| l.trim_matches([' ', '\t']).to_string()).filter(|l| !l.is_empty()).collect()
 }
 
 fn apply_para(p: &Paragraph, s: &Settings) -> Paragraph {
@@ -254,6 +254,18 @@ fn check_output(ctx: &mut Ctx, level: &str, s: &Settings, input: &str, out: &str
         fail(ctx, "reread-differs-from-live", level, s, input, out, json!({"reread": re, "live": live}));
         return false;
     }
+    // The line scanners below know one line terminator. The lexer treats a lone carriage return exactly as it
+    // treats a line feed (`common::is_newline`, in every state), so for them - and only for them: the strict
+    // re-read above and the idempotence test use the real text - both texts are brought to line feeds.
+    let (input_lf, out_lf);
+    let (input, out) = if input.contains('\r') || out.contains('\r') {
+        ctx.count("cr-line-ends");
+        input_lf = input.replace('\r', "\n");
+        out_lf = out.replace('\r', "\n");
+        (&input_lf[..], &out_lf[..])
+    } else {
+        (input, out)
+    };
     // 2. expected content
     let mut exp = Expect { paras: vec![] };
     let mut log = fmt_log.to_vec();
@@ -409,8 +421,13 @@ fn check_output(ctx: &mut Ctx, level: &str, s: &Settings, input: &str, out: &str
 fn gen_input(r: &mut Rng, one_para: bool) -> gen::GDoc {
     let o = GOpts { max_paras: if one_para { 1 } else { 3 }, unicode: r.chance(1, 2), blank_continuations: r.chance(1, 2), ..GOpts::default() };
     let mut d = gen::gen_doc(r, &o);
-    // values with commas so that the comma formatter has work to do
-    let _ = &mut d;
+    // one document in ten ends some or all of its lines with a lone carriage return, which the lexer takes for a
+    // line end just as it does a line feed (such a document is error-free; the lanes skip inputs the strict reader
+    // rejects)
+    if r.chance(1, 10) {
+        let all = r.chance(1, 2);
+        d.text = d.text.chars().map(|c| if c == '\n' && (all || r.chance(1, 3)) { '\r' } else { c }).collect();
+    }
     d
 }
 
